@@ -294,8 +294,11 @@ def createInstance (beh : Beh) : Nat → State → Nat → Desc → State × Exc
   | f+1, st, s, d =>
     match d.kind with
     | .inst v =>
+      -- a value registered under several interface types is one service: shared with the siblings
       let r := setInstance st s d d.ident (.inst v)
-      (r.1, okOr r.2 (.inst v))
+      match r.2 with
+      | .error e => (r.1, .error e)
+      | .ok _ => (shareAll r.1 s d.id (d.sibs.filterMap (findDesc st.descs)) (.inst v), .ok (.inst v))
     | _ =>
       let ra := buildArgs beh f st s d.deps []
       match ra.2 with
